@@ -3,7 +3,7 @@
    natives; nat, positive, N, Z stay the extracted inductives. *)
 Require Extraction.
 Require Import ExtrOcamlBasic.
-From GTS Require Import Base Arith Tables Pars Origin Loc Seq Region Nuc Cache Fasta LocParse ModParse Select Repair GoSlice CacheCLI Plans Insdc GenBank.
+From GTS Require Import Base Arith Tables Pars Origin Loc Seq Region Nuc Cache Fasta LocParse ModParse Select Locator Repair GoSlice CacheCLI Plans Insdc GenBank.
 Extraction Blacklist String List Nat.
 Extraction "model.ml"
   go_toOriginLength go_fromOriginLength go_Abs go_Compare go_Min go_Max
@@ -21,4 +21,4 @@ Extraction "model.ml"
   plan_delete plan_insert plan_rotate plan_split plan_extract
   default_registry scan_genbank auto_scan gb_show as_date table_parser wrap_space flatfile_split itoa
   date_show table_show qualifier_parser refs_slice ref_info_parser
-  as_modifier mod_show.
+  as_modifier mod_show locate_string.
